@@ -30,6 +30,14 @@ CHECKS.update({
             "Every combination of model kind, dimension, sources, parameter vector, individual parameters, age list and request form in the grid is run through the real estimate(); values are compared with an independent numpy implementation of the documented formula, plus range, monotonicity, reference-time value, order and layout of the result.",
             "Grid alphabets only; per-value tolerance derived from float32 rounding of the logit; joint event columns only checked for count and range."),
 })
+CHECKS.update({
+    "C15": ("model_checking", "exhaustive enumeration of all labelled digraphs up to n nodes (plus variants, relabellings, insertion orders, model graphs, other hash seeds) through both real DAG constructors against networkx",
+            "All labelled digraphs on <= 4 nodes (quick) / all 2^20 on 5 nodes (thorough), with self-loop / unknown-reference variants, every relabelling and insertion order for small n, enumerated larger families and every model kind's graph, are constructed by the real VariablesDAG and compared with networkx: acceptance, topological order, exact transitive sets in order, determinism across constructions, orders and interpreter hash seeds.",
+            "Graphs beyond the enumerated sizes are covered only by the hand-enumerated families; tie-break order itself is not asserted, only its determinism."),
+    "C20": ("exploration", "exhaustive enumeration of visit histories / row orders / request forms for the constant model and of a deterministic cohort catalogue for the LME model against reference implementations",
+            "All 4^6 value tables (x row orders, prediction types, request forms) through the real constant model against a 10-line reference; a closed-form catalogue of LME cohorts through the real fit/personalize/estimate with the MixedLM fit captured: random effects against statsmodels' own and against (Z'Z + Psi^-1)^-1 Z'r, trajectories affine in age.",
+            "LME cohorts are a finite catalogue; age-normalisation constants are taken as stored; optimiser failures of statsmodels itself are expected outcomes."),
+})
 NOT_APPLICABLE = {}
 
 def main():
